@@ -258,16 +258,29 @@ def set_treeflatten_memo():
     global _flattening
     _flattening = True
     _treeflatten_storage.value = True""")], "C06")
-SEEDS["C06_dtype_name_cache"] = ("C06", [(A, """        if hasattr(obj.dtype, "type") and hasattr(obj.dtype.type, "__name__"):
+# (a memo of a pure function of its key is not a violation: the twin; keyed by an id() it is)
+SEEDS["C06_dtype_name_cache_keyed_by_dtype_class"] = ("C06", [(A, """        if hasattr(obj.dtype, "type") and hasattr(obj.dtype.type, "__name__"):
             # JAX, numpy
             dtype = obj.dtype.type.__name__""", """        if type(obj.dtype) in _dtype_name_cache:
             dtype = _dtype_name_cache[type(obj.dtype)]
         elif hasattr(obj.dtype, "type") and hasattr(obj.dtype.type, "__name__"):
             # JAX, numpy
             dtype = obj.dtype.type.__name__
-            _dtype_name_cache[type(obj.dtype)] = dtype"""), (A, "_not_made = object()", "_not_made = object()\n_dtype_name_cache = {}")], "C06.2")
+            _dtype_name_cache[type(obj.dtype)] = dtype"""), (A, "_not_made = object()", "_not_made = object()\n_dtype_name_cache = {}")], "ANALYSIS-ERROR")  # the name is computed from obj.dtype, the key is only its class: not decidable here
+SEEDS["C06_dtype_name_cache_keyed_by_id"] = ("C06", [(A, """        if hasattr(obj.dtype, "type") and hasattr(obj.dtype.type, "__name__"):
+            # JAX, numpy
+            dtype = obj.dtype.type.__name__""", """        if id(obj.dtype) in _dtype_name_cache:
+            dtype = _dtype_name_cache[id(obj.dtype)]
+        elif hasattr(obj.dtype, "type") and hasattr(obj.dtype.type, "__name__"):
+            # JAX, numpy
+            dtype = obj.dtype.type.__name__
+            _dtype_name_cache[id(obj.dtype)] = dtype"""), (A, "_not_made = object()", "_not_made = object()\n_dtype_name_cache = {}")], "C06.2")
 SEEDS["C06_lru_cache_on_check_dims"] = ("C06", [(A, """def _dtype_is_numpy_struct_array(dtype):""", """@ft.lru_cache(maxsize=None)
-def _dtype_is_numpy_struct_array(dtype):""")], "C06.4")
+def _dtype_is_numpy_struct_array(dtype):""")], "ANALYSIS-ERROR")
+SEEDS["C06_lru_cache_on_context_dependent_check"] = ("C06", [(A, """    def _check_shape(
+        cls,""", """    @ft.lru_cache(maxsize=None)
+    def _check_shape(
+        cls,""")], "C06.4")
 SEEDS["C06_class_level_last_error"] = ("C06", [(A, """        if check == "":
             return check
         else:""", """        cls._last_check = check
@@ -365,7 +378,7 @@ SEEDS["C12_install_hook_purges_sys_modules"] = ("C12", [(H, """    wrapped_typec
         sys.modules.pop(_name, None)
     wrapped_typechecker = Typechecker(typechecker)""")], "C12.4")
 SEEDS["C12_memoised_struct_test"] = ("C12", [(A, """def _dtype_is_numpy_struct_array(dtype):""", """@ft.lru_cache(maxsize=None)
-def _dtype_is_numpy_struct_array(dtype):""")], "C12.5")
+def _dtype_is_numpy_struct_array(dtype):""")], "ANALYSIS-ERROR")  # a pure function memoised: harmless if its argument is hashable -- no verdict
 SEEDS["C12_pop_skipped_on_baseexception"] = ("C12", [(D, NEW_WRAPPER_TRY, """                try:
                     out = wrapped_fn_impl(args, kwargs, bound, memos)
                 except Exception:
@@ -942,6 +955,57 @@ SEEDS["C14_modifier_table_twice_check_dropped"] = ("C14", [("@diff", "benign/RY/
 SEEDS["C19_flag_table_wrong_attribute"] = ("C19", [("@diff", "benign/RV/3.diff", None), (C, """                setattr(self, flag, _maybestr2bool(value, msg))""", """                setattr(self, "jaxtyping_disable", _maybestr2bool(value, msg))""")], "C19")
 SEEDS["C19_flag_table_env_not_read"] = ("C19", [("@diff", "benign/RV/3.diff", None), (C, """            self.update(flag, os.environ.get(flag.upper(), "0"))""", """            self.update(flag, "0")""")], "C19")
 
+# memo tables keyed by a lossy rendering (rules/_memo.py)
+SEEDS["C20_dtype_verdict_memo_keyed_by_id"] = ("C20", [(A, """        if cls.dtypes is not _any_dtype:
+            in_dtypes = False
+            for cls_dtype in cls.dtypes:""", """        if cls.dtypes is not _any_dtype and (id(cls.dtypes), dtype) in _dtype_memo:
+            if not _dtype_memo[(id(cls.dtypes), dtype)]:
+                return "this array has the wrong dtype"
+        elif cls.dtypes is not _any_dtype:
+            in_dtypes = False
+            _dtype_memo[(id(cls.dtypes), dtype)] = any(d == dtype for d in cls.dtypes if type(d) is str)
+            for cls_dtype in cls.dtypes:"""), (A, "def _dtype_is_numpy_struct_array(dtype):", "_dtype_memo: dict = {}\n\n\ndef _dtype_is_numpy_struct_array(dtype):")], "C20.7")
+TWINS["C20_twin_dtype_verdict_memo_keyed_by_object"] = ("C20", [(A, """        if cls.dtypes is not _any_dtype:
+            in_dtypes = False
+            for cls_dtype in cls.dtypes:""", """        if cls.dtypes is not _any_dtype and (cls.dtypes, dtype) in _dtype_memo:
+            if not _dtype_memo[(cls.dtypes, dtype)]:
+                return "this array has the wrong dtype"
+        elif cls.dtypes is not _any_dtype:
+            in_dtypes = False
+            _dtype_memo[(cls.dtypes, dtype)] = any(d == dtype for d in cls.dtypes if type(d) is str)
+            for cls_dtype in cls.dtypes:"""), (A, "def _dtype_is_numpy_struct_array(dtype):", "_dtype_memo: dict = {}\n\n\ndef _dtype_is_numpy_struct_array(dtype):")])
+SEEDS["C13_blame_checkers_memo_keyed_by_str_of_signature"] = ("C13", [(D, """    for keep_name in param_signature.parameters.keys():
+        new_parameters = []""", """    for keep_name in param_signature.parameters.keys():
+        if (str(param_signature), keep_name) in _blame_memo:
+            _blame_memo[(str(param_signature), keep_name)](*args, **kwargs)
+        _blame_memo[(str(param_signature), keep_name)] = typechecker
+        new_parameters = []"""), (D, "def _get_problem_arg(", "_blame_memo: dict = {}\n\n\ndef _get_problem_arg(")], "C13.9")
+
+# batch-7 driven clauses: C18.7, C14.2(vi), C14.4 raw-token tests, C17.2 push
+SEEDS["C18_typechecker_imported_while_compiling"] = ("C18", [(H, """    def source_to_code(self, data, path, *, _optimize=-1):
+        source = decode_source(data)""", """    def source_to_code(self, data, path, *, _optimize=-1):
+        importlib.import_module(self._typechecker.module_name)
+        source = decode_source(data)""")], "C18.7")
+TWINS["C18_twin_constant_stdlib_import_while_compiling"] = ("C18", [(H, """    def source_to_code(self, data, path, *, _optimize=-1):
+        source = decode_source(data)""", """    def source_to_code(self, data, path, *, _optimize=-1):
+        importlib.import_module("ast")
+        source = decode_source(data)""")])
+SEEDS["C14_symbolic_axis_compiled_at_construction"] = ("C14", [(A, """            elem = _SymbolicDim(elem, broadcastable)""", """            compile(elem, "<axis>", "eval")
+            elem = _SymbolicDim(elem, broadcastable)""")], "C14.2")
+SEEDS["C14_trailing_hash_tested_after_stripping"] = ("C14", [(A, """        if elem.endswith("#"):
+            raise ValueError(
+                "As of jaxtyping v0.1.0, broadcastable axes are now denoted "
+                "with a # at the start, rather than at the end"
+            )
+
+""", ""), (A, """            if len(elem) == 0 or elem.isidentifier():
+                dim_type = _DimType.named""", """            if elem.endswith("#"):
+                raise ValueError("broadcastable axes are denoted with a # at the start")
+            if len(elem) == 0 or elem.isidentifier():
+                dim_type = _DimType.named""")], "C14.4")
+SEEDS["C17_push_drops_some_arguments_by_value"] = ("C17", [(S, """    memos = ({}, {}, {}, arguments.copy())""", """    memos = ({}, {}, {}, {k: v for k, v in arguments.items() if not hasattr(v, "aval")})""")], "C17.2")
+TWINS["C17_twin_push_copies_by_comprehension"] = ("C17", [(S, """    memos = ({}, {}, {}, arguments.copy())""", """    memos = ({}, {}, {}, {k: v for k, v in arguments.items()})""")])
+
 # ---- variants modelled on independent sub-agent seeds (see /verif/seeded/)
 SEEDS["C16_skip_already_seen_leaf_objects"] = ("C16", [(P, """        for leaf_index, leaf in enumerate(leaves):
             if cls.structure is None:""", """        checked_ids = set()
@@ -1456,7 +1520,7 @@ SEEDS["C02_kwonly_kind_dropped"] = ("C02", [(D, """        elif p.kind == inspec
 SEEDS["C02_impl_wrong_output_value"] = ("C02", [(D, "                    kwargs[output_name] = out\n", "                    kwargs[output_name] = bound\n")], "C02.2")
 TWINS["C02_twin_noop"] = ("C02", [(D, "            param_signature = full_signature.replace(return_annotation=Any)", "            param_signature = full_signature.replace(return_annotation=Any)  # parameters only")])
 SEEDS["C03_memoised_dtype_name"] = ("C03", [(A, """def _dtype_is_numpy_struct_array(dtype):""", """@ft.lru_cache(maxsize=None)
-def _dtype_is_numpy_struct_array(dtype):""")], "C03.5")
+def _dtype_is_numpy_struct_array(dtype):""")], "ANALYSIS-ERROR")  # see C12_memoised_struct_test
 SEEDS["C20_loader_interns_by_merged_fields"] = ("C20", [(A, "        return x.dtype.__getitem__, (x._getitem_args,)", "        return _unpickle_array_annotation, (x.dtype, x._getitem_args)"), (A, "def _pickle_array_annotation(x", """_unpickled = {}
 
 
